@@ -13,7 +13,7 @@ Fixpoint writes_nothing (sc : script) : bool :=
   | _ => false
   end.
 
-Lemma exec_panic sc : forall w, snd (exec sc w) = panic_of sc.
+Lemma exec_panic sc : forall w, snd (exec true sc w) = panic_of sc.
 Proof. induction sc as [|a r IH]; intros w; [reflexivity|]. destruct a; cbn [exec panic_of]; auto. Qed.
 
 Lemma pbh_spec sc : panics_before_header sc = true <-> writes_nothing sc = true /\ panic_of sc <> None.
@@ -21,6 +21,7 @@ Proof.
   induction sc as [|a r IH]; cbn [panics_before_header writes_nothing panic_of].
   - split; [discriminate | intros [_ H]; contradiction].
   - destruct a; try exact IH.
+    + split; [discriminate | intros [H _]; discriminate].
     + split; [discriminate | intros [H _]; discriminate].
     + split; [discriminate | intros [H _]; discriminate].
     + split; [intros _; split; [reflexivity | discriminate] | reflexivity].
@@ -35,7 +36,10 @@ Proof.
     [destruct (wire_hdr (rw_write_header 200 w)) | destruct (wire_hdr w)]; reflexivity.
 Qed.
 
-Lemma exec_status_nz sc : forall w, codes_ok sc = true -> status w <> 0 -> status (fst (exec sc w)) <> 0.
+Lemma status_flush w : status (rw_flush true w) = if status w =? 0 then 200 else status w.
+Proof. reflexivity. Qed.
+
+Lemma exec_status_nz sc : forall w, codes_ok sc = true -> status w <> 0 -> status (fst (exec true sc w)) <> 0.
 Proof.
   induction sc as [|a r IH]; intros w Hc Hs; cbn [exec fst]; [assumption|].
   destruct a; cbn [codes_ok] in Hc.
@@ -43,11 +47,12 @@ Proof.
   - apply andb_prop in Hc. destruct Hc as [Hc1 Hc]. apply andb_prop in Hc1. destruct Hc1 as [Hlo _].
     apply N.leb_le in Hlo. apply IH; [assumption|]. rewrite status_write_header. lia.
   - apply IH; [assumption|]. rewrite status_write. destruct (status w =? 0); [lia | assumption].
+  - apply IH; [assumption|]. rewrite status_flush. destruct (status w =? 0); [lia | assumption].
   - assumption.
 Qed.
 
 Lemma exec_status0 sc : forall w, codes_ok sc = true ->
-  (status (fst (exec sc w)) = 0 <-> status w = 0 /\ writes_nothing sc = true).
+  (status (fst (exec true sc w)) = 0 <-> status w = 0 /\ writes_nothing sc = true).
 Proof.
   induction sc as [|a r IH]; intros w Hc; cbn [exec fst writes_nothing].
   - tauto.
@@ -61,10 +66,14 @@ Proof.
       * intros H. exfalso. revert H. apply exec_status_nz; [assumption|]. rewrite status_write.
         destruct (status w =? 0) eqn:E; [lia | apply N.eqb_neq; assumption].
       * intros [_ H]; discriminate.
+    + split.
+      * intros H. exfalso. revert H. apply exec_status_nz; [assumption|]. rewrite status_flush.
+        destruct (status w =? 0) eqn:E; [lia | apply N.eqb_neq; assumption].
+      * intros [_ H]; discriminate.
     + cbn [fst]. tauto.
 Qed.
 
-Lemma exec_writes_nothing sc : forall w, writes_nothing sc = true -> fst (exec sc w) = w.
+Lemma exec_writes_nothing sc : forall w, writes_nothing sc = true -> fst (exec true sc w) = w.
 Proof.
   induction sc as [|a r IH]; intros w H; [reflexivity|].
   destruct a; cbn [writes_nothing] in H; try discriminate; cbn [exec]; auto.
@@ -76,7 +85,7 @@ Definition agree (w : rw) : Prop :=
 Definition started (w : rw) : bool := match wire_hdr w with Some _ => true | None => false end.
 
 Lemma exec_agree sc : forall w, agree w -> codes_ok sc = true -> set_once_from (started w) sc = true ->
-  agree (fst (exec sc w)).
+  agree (fst (exec true sc w)).
 Proof.
   induction sc as [|a r IH]; intros w Ha Hc Hs; cbn [exec fst]; [assumption|].
   destruct a; cbn [codes_ok set_once_from] in *.
@@ -90,6 +99,14 @@ Proof.
   - assert (Hw : agree (rw_write chunk w) /\ started (rw_write chunk w) = true).
     { destruct w as [st wh wb]. unfold agree in Ha. cbn [wire_hdr status] in Ha.
       unfold rw_write, agree, started. cbn [status].
+      destruct wh as [c|].
+      - destruct Ha as [Hst Hn]. assert (E : (st =? 0) = false) by (apply N.eqb_neq; lia).
+        rewrite E. cbn. auto.
+      - subst st. cbn. split; [split; [reflexivity | lia] | reflexivity]. }
+    destruct Hw as [Hw1 Hw2]. apply IH; [assumption | assumption | rewrite Hw2; assumption].
+  - assert (Hw : agree (rw_flush true w) /\ started (rw_flush true w) = true).
+    { destruct w as [st wh wb]. unfold agree in Ha. cbn [wire_hdr status] in Ha.
+      unfold rw_flush, origin_write_header, agree, started. cbn [status wire_hdr wbody andb].
       destruct wh as [c|].
       - destruct Ha as [Hst Hn]. assert (E : (st =? 0) = false) by (apply N.eqb_neq; lia).
         rewrite E. cbn. auto.
@@ -120,7 +137,7 @@ Section RelayProofs.
 
   Lemma all_ids thr rq sc : Forall (fun x => rec_id x = rid rq) (records (relay render thr rq sc)).
   Proof.
-    unfold relay. destruct (exec sc rw0) as [w1 p].
+    unfold relay, relay_gen. destruct (exec true sc rw0) as [w1 p].
     destruct (recover_block render thr rq w1 p) as [[[w2 recs1] sent] esc] eqn:Er.
     destruct (end_block thr rq w2) as [w3 recs2] eqn:Ee. cbn [records].
     apply Forall_app. split; [|apply Forall_app; split].
@@ -145,7 +162,7 @@ Section RelayProofs.
     /\ (relay500 r = true <-> panics_before_header sc = true)
     /\ (relay500 r = true -> wire r = 500 /\ body r = [err_chunk])
     /\ (relay500 r = false ->
-          wire_hdr (final r) = wire_hdr (fst (exec sc rw0)) /\ body r = wbody (fst (exec sc rw0)))
+          wire_hdr (final r) = wire_hdr (fst (exec true sc rw0)) /\ body r = wbody (fst (exec true sc rw0)))
     /\ records r = [BEG (rip rq) (rmethod rq) (ruri rq) (rid rq)]
                    ++ (match panic_of sc with Some p => [ERR p (rid rq)] | None => [] end)
                    ++ [END (logged r) (rip rq) (rmethod rq) (ruri rq) (rid rq)]
@@ -156,11 +173,11 @@ Section RelayProofs.
     pose proof (exec_panic sc rw0) as Hp.
     pose proof (exec_status0 sc rw0 Hc) as Hs0.
     pose proof (pbh_spec sc) as Hpbh.
-    assert (Hag : set_once sc = true -> agree (fst (exec sc rw0))).
+    assert (Hag : set_once sc = true -> agree (fst (exec true sc rw0))).
     { intros Hso. apply exec_agree; [apply agree_rw0 | assumption | exact Hso]. }
     assert (Hbody0 : forall w : rw, status w = 0 -> writes_nothing sc = true -> True) by auto.
-    unfold logged, wire, body, relay.
-    destruct (exec sc rw0) as [w1 p] eqn:Ex. cbn [fst snd] in *. subst p.
+    unfold logged, wire, body, relay, relay_gen.
+    destruct (exec true sc rw0) as [w1 p] eqn:Ex. cbn [fst snd] in *. subst p.
     unfold recover_block, end_block. rewrite Hi, He.
     destruct (panic_of sc) as [[|v]|] eqn:Epo.
     - exfalso. apply Hna. exact Epo.
@@ -214,7 +231,7 @@ Section RelayProofs.
     pose proof (exec_panic sc rw0) as Hp.
     pose proof (exec_status0 sc rw0 Hc) as Hs0.
     pose proof (pbh_spec sc) as Hpbh.
-    unfold relay. destruct (exec sc rw0) as [w1 p] eqn:Ex. cbn [fst snd] in *. subst p.
+    unfold relay, relay_gen. destruct (exec true sc rw0) as [w1 p] eqn:Ex. cbn [fst snd] in *. subst p.
     unfold recover_block, end_block. rewrite Hi, He.
     destruct (panic_of sc) as [[|v]|] eqn:Epo.
     - exfalso. apply Hna. exact Epo.
@@ -238,7 +255,7 @@ Section RelayProofs.
     pose proof (exec_panic sc rw0) as Hp.
     pose proof (exec_status0 sc rw0 Hc) as Hs0.
     pose proof (pbh_spec sc) as Hpbh.
-    unfold relay. destruct (exec sc rw0) as [w1 p] eqn:Ex. cbn [fst snd] in *. subst p.
+    unfold relay, relay_gen. destruct (exec true sc rw0) as [w1 p] eqn:Ex. cbn [fst snd] in *. subst p.
     unfold recover_block, end_block. rewrite Hi, He.
     destruct (panic_of sc) as [[|v]|] eqn:Epo.
     - exfalso. apply Hna. exact Epo.
@@ -257,7 +274,7 @@ Section RelayProofs.
     /\ Forall (fun x => match x with ERR _ _ => False | _ => True end) (records r).
   Proof.
     intros Hpo. pose proof (exec_panic sc rw0) as Hp.
-    unfold relay. destruct (exec sc rw0) as [w1 p] eqn:Ex. cbn [snd] in Hp. subst p. rewrite Hpo.
+    unfold relay, relay_gen. destruct (exec true sc rw0) as [w1 p] eqn:Ex. cbn [snd] in Hp. subst p. rewrite Hpo.
     unfold recover_block, end_block.
     destruct (enabled thr LInfo); cbn [escaped relay500 records app]; repeat split; repeat constructor.
   Qed.
@@ -269,11 +286,22 @@ Section RelayProofs.
     let r := relay render thr rq sc in escaped r = true /\ relay500 r = false.
   Proof.
     intros Hr He Hpo. pose proof (exec_panic sc rw0) as Hp.
-    unfold relay. destruct (exec sc rw0) as [w1 p] eqn:Ex. cbn [snd] in Hp. subst p. rewrite Hpo.
+    unfold relay, relay_gen. destruct (exec true sc rw0) as [w1 p] eqn:Ex. cbn [snd] in Hp. subst p. rewrite Hpo.
     unfold recover_block. rewrite He, Hr.
     destruct (end_block thr rq w1). split; reflexivity.
   Qed.
 End RelayProofs.
+
+(** The Flush of the code before commit 9de7f2e (Status left at 0): a handler that flushes and then
+    panics gets the 500 text appended to its started 200 response, and REQ_END logs 500. *)
+Lemma flush_old_refuted : exists sc rq,
+  codes_ok sc = true /\ no_abort sc /\ set_once sc = true /\ panics_before_header sc = false /\
+  let r := relay_gen (fun v => Some v) false 4 rq sc in
+  escaped r = false /\ relay500 r = true /\ wire r = 200 /\ logged r = 500 /\ body r = [err_chunk].
+Proof.
+  exists [Flush false; Panic (PV 3)], (mkReq 1 7 1 7).
+  split; [reflexivity|]. split; [discriminate|]. vm_compute. repeat split; reflexivity.
+Qed.
 
 (** * Interleavings of the record streams of concurrent requests *)
 
